@@ -51,6 +51,7 @@ type decProtoCase struct {
 	Fault  bool   `json:"fault,omitempty"` // error-path alphabet (see dpFaultAlphabet)
 	Ref    bool   `json:"ref,omitempty"`   // PAR1: the set is written by the independent reference writer (comment in the index, an entry not saved in the parity set between the saved ones, a zero-length file) instead of by gopar's Create
 	Disk   bool   `json:"disk,omitempty"`  // exported constructors on a real directory (else: the same objects on the owned in-memory filesystem)
+	VolLast bool  `json:"vollast,omitempty"` // the recovery-file events (delete / restore / cut) act on the LAST recovery file / highest volume instead of the first
 	One    bool   `json:"one,omitempty"`   // the set has ONE recovery block in ONE recovery file (PAR1: one volume): with "delete the first recovery file" no recovery file at all is left
 }
 
@@ -150,7 +151,7 @@ func decProtoOne(c *decProtoCase, seq []int, r *core.Rec, wrap func(*decProtoCas
 		for _, o := range seq {
 			ops = append(ops, dpNames[o])
 		}
-		r.ViolateWith("decoder-protocol:"+sig, fmt.Sprintf(f, a...)+"\nsequence: "+strings.Join(ops, ", "), wrap(&decProtoCase{Fmt: c.Fmt, Seq: append([]int{}, seq...), Disk: c.Disk, Ref: c.Ref, Fault: c.Fault, One: c.One}))
+		r.ViolateWith("decoder-protocol:"+sig, fmt.Sprintf(f, a...)+"\nsequence: "+strings.Join(ops, ", "), wrap(&decProtoCase{Fmt: c.Fmt, Seq: append([]int{}, seq...), Disk: c.Disk, Ref: c.Ref, Fault: c.Fault, One: c.One, VolLast: c.VolLast}))
 	}
 	var p2 *scen.P2Set
 	var p1 *scen.P1Set
@@ -186,6 +187,9 @@ func decProtoOne(c *decProtoCase, seq []int, r *core.Rec, wrap func(*decProtoCas
 			return
 		}
 		p1, paths, datas, vols, fs0, index = s, s.Paths, s.Data, s.VolPaths, s.FS0, s.Index
+	}
+	if c.VolLast && len(vols) > 1 {
+		vols = append([]string{vols[len(vols)-1]}, vols[:len(vols)-1]...)
 	}
 	cur := fs0.Clone() // mirror of the directory
 	if c.Disk {
@@ -259,6 +263,8 @@ func decProtoOne(c *decProtoCase, seq []int, r *core.Rec, wrap func(*decProtoCas
 			ops = append(ops, op)
 		}
 	}
+	var prevLists [][]string
+	var prevListsWant []string
 	for _, op := range ops {
 		r.AddTransitions(1)
 		fresh := fileView == view(paths) && parityView == view(vols)
@@ -517,6 +523,17 @@ func decProtoOne(c *decProtoCase, seq []int, r *core.Rec, wrap func(*decProtoCas
 					rp, rerr = d1.Repair(op == dpRepairDC)
 				}
 			})
+			// the lists earlier Repair calls on this object returned belong to the caller: still what they were
+			for k := range prevLists {
+				if fmt.Sprint(prevLists[k]) != prevListsWant[k] {
+					viol("result-of-an-earlier-repair-altered", "the list an earlier Repair on this object returned was %s, after this Repair it reads %v", prevListsWant[k], prevLists[k])
+					return
+				}
+			}
+			if len(rp) > 0 {
+				prevLists = append(prevLists, rp)
+				prevListsWant = append(prevListsWant, fmt.Sprint(rp))
+			}
 			// whatever happened, the directory is now what is on disk
 			if c.Disk {
 				cur.Files = readTree(root)
